@@ -8,7 +8,9 @@ import os
 import resource
 import signal
 import sys
+import tempfile
 import time
+import tracemalloc
 
 sys.path.insert(0, os.path.dirname(__file__))
 resource.setrlimit(resource.RLIMIT_AS, (3 << 30, 3 << 30))
@@ -31,10 +33,50 @@ def on_alarm(*_):
 signal.signal(signal.SIGALRM, on_alarm)
 
 
-def run(fn, data):
-    n = 0
+class RawSource(io.RawIOBase):
+    """A non-seekable source (pipe / socket like): short reads, then end of input."""
+
+    def __init__(self, data: bytes, chunk: int) -> None:
+        self.data, self.pos, self.chunk = data, 0, chunk
+
+    def readable(self) -> bool:
+        return True
+
+    def seekable(self) -> bool:
+        return False
+
+    def readinto(self, buf) -> int:
+        n = min(self.chunk, len(buf), len(self.data) - self.pos)
+        buf[:n] = self.data[self.pos : self.pos + n]
+        self.pos += n
+        return n
+
+
+PEAK = [0]
+
+
+def run(fn, data, raw_chunk=None, as_file=False):
+    """One entry point on one carrier; PEAK[0] keeps the largest traced allocation peak seen."""
+    tracemalloc.start()
     try:
-        res = fn(io.BytesIO(data))
+        return _run(fn, data, raw_chunk, as_file)
+    finally:
+        PEAK[0] = max(PEAK[0], tracemalloc.get_traced_memory()[1])
+        tracemalloc.stop()
+
+
+def _run(fn, data, raw_chunk, as_file):
+    n = 0
+    tmp = None
+    try:
+        if as_file:
+            tmp = tempfile.TemporaryFile()
+            tmp.write(data)
+            tmp.seek(0)
+            src = tmp
+        else:
+            src = io.BytesIO(data) if raw_chunk is None else RawSource(data, raw_chunk)
+        res = fn(src)
         if hasattr(res, "__next__") or hasattr(res, "__iter__") and not hasattr(res, "__len__"):
             for item in res:
                 n += 1 if not hasattr(item, "__len__") else max(1, 0)
@@ -47,6 +89,9 @@ def run(fn, data):
         return "err:MemoryError"
     except Exception as e:  # noqa: BLE001
         return f"err:{type(e).__name__}"
+    finally:
+        if tmp is not None:
+            tmp.close()
 
 
 ENTRY = {
@@ -61,6 +106,7 @@ for i, data in enumerate(inputs):
     outcomes = {}
     max_s = 0.0
     hung = False
+    PEAK[0] = 0
     for name, fn in ENTRY.items():
         t0 = time.time()
         signal.alarm(20)
@@ -72,6 +118,36 @@ for i, data in enumerate(inputs):
         finally:
             signal.alarm(0)
         max_s = max(max_s, time.time() - t0)
+    # the same bytes from an ordinary file object (a BufferedReader: read(n) allocates n up front)
+    if len(data) <= 64 or i % 3 == 0:
+        for name in ("g.flat", "r.flat"):
+            t0 = time.time()
+            signal.alarm(20)
+            try:
+                o = run(ENTRY[name], data, as_file=True)
+            except Timeout:
+                o = "hang"
+                hung = True
+            finally:
+                signal.alarm(0)
+            outcomes[f"{name}/file"] = o
+            max_s = max(max_s, time.time() - t0)
+    # the same bytes from a non-seekable source (short inputs and a sample of the others): the header is
+    # obtained differently there, and "ends after 0, 1, 2 bytes" is a case of its own
+    if len(data) <= 8 or i % 4 == 0:
+        for chunk in ((1, 2, 1 << 20) if len(data) <= 8 else (3,)):
+            for name in ("g.flat", "r.grouped"):
+                t0 = time.time()
+                signal.alarm(20)
+                try:
+                    o = run(ENTRY[name], data, raw_chunk=chunk)
+                except Timeout:
+                    o = "hang"
+                    hung = True
+                finally:
+                    signal.alarm(0)
+                outcomes[f"{name}/raw{chunk}"] = o
+                max_s = max(max_s, time.time() - t0)
     # canonical form of the framing for the model (only when protobuf accepts the bytes as frames)
     canon = None
     canon_outcome = None
@@ -96,4 +172,4 @@ for i, data in enumerate(inputs):
     except Exception:  # noqa: BLE001
         canon = None
     rss = resource.getrusage(resource.RUSAGE_SELF).ru_maxrss // 1024
-    print(json.dumps({"i": i, "outcomes": outcomes, "max_s": round(max_s, 3), "rss_mb": rss, "hung": hung, "canon": canon, "canon_outcome": canon_outcome}), flush=True)
+    print(json.dumps({"i": i, "outcomes": outcomes, "max_s": round(max_s, 3), "rss_mb": rss, "peak_alloc_mb": round(PEAK[0] / 1e6, 1), "hung": hung, "canon": canon, "canon_outcome": canon_outcome}), flush=True)
